@@ -277,7 +277,6 @@ func (h *hist) register(tok string) {
 // exec runs one op line and returns "outcome || calls || dump" with raw references.
 func (h *hist) exec(line string) string {
 	f := strings.Split(line, "\t")
-	ctx := context.Background()
 	h.store.calls = nil
 	h.store.handed = nil
 	// storage-call indices are per operation; a pending fault plan applies to this operation only
@@ -289,6 +288,17 @@ func (h *hist) exec(line string) string {
 	}
 	h.store.plan, h.pending = h.pending, nil
 	defer func() { h.store.plan = nil }()
+	var out string
+	if f[0] == "par" {
+		out = h.execPar(f)
+	} else {
+		out = h.execOp(context.Background(), f)
+	}
+	return out + " || " + strings.Join(h.store.calls, " ") + " || " + h.store.dump() + " || taint=" + h.taint(f)
+}
+
+// execOp runs one API operation (fields of an op line) and returns its outcome
+func (h *hist) execOp(ctx context.Context, f []string) string {
 	out := "bad-op"
 	switch f[0] {
 	case "cfg":
@@ -306,7 +316,7 @@ func (h *hist) exec(line string) string {
 		n, _ := strconv.ParseInt(f[1], 10, 64)
 		time.Sleep(time.Duration(n))
 		out = "ok"
-	case "authorize":
+	case "authorize", "authorizeRU":
 		out = h.execAuthorize(ctx, f)
 	case "redeem":
 		form := url.Values{"grant_type": {"authorization_code"}, "client_id": {f[1]}}
@@ -500,7 +510,7 @@ func (h *hist) exec(line string) string {
 			out = fmt.Sprintf("active use=%s %s", tu, h.store.renderReq(ar))
 		}
 	}
-	return out + " || " + strings.Join(h.store.calls, " ") + " || " + h.store.dump() + " || taint=" + h.taint(f)
+	return out
 }
 
 // taint lists everything handed to the storage layer during this operation that equals a usable
@@ -620,6 +630,9 @@ func (h *hist) execAuthorize(ctx context.Context, f []string) string {
 	setIf(q, "audience", strings.Join(decList(f[8]), " "))
 	setIf(q, "code_challenge", challengeOf(f[12]))
 	setIf(q, "code_challenge_method", f[13])
+	if f[0] == "authorizeRU" {
+		q.Set("request_uri", f[14]) // not a pushed request (foreign prefix)
+	}
 	r := httptest.NewRequest("GET", "https://as.example/auth?"+q.Encode(), nil)
 	return h.finishAuthorize(ctx, r, decList(f[9]), decList(f[10]), f[11])
 }
